@@ -177,7 +177,7 @@ def parseRegex (toks : List (List Char)) : Option RegexCfg :=
         (Wire.kv? toks "strict").bind Wire.nat? with
   | some (l, r, c, p), some re, some ml, some st =>
     match Wire.allSome ((Wire.items ';' re).map parseAlt) with
-    | some alts => some ⟨l, r, c, p, alts, ml, st != 0⟩
+    | some alts => some ⟨l, r, c, p, alts, ml, st != 0, Wire.kv? toks "rxempty" == some "skip".toList⟩
     | none => none
   | _, _, _, _ => none
 
